@@ -56,6 +56,14 @@ func LoadBaseline(file string) error {
 		l = strings.TrimSpace(l)
 		if l != "" && !strings.HasPrefix(l, "#") {
 			cols := strings.Split(l, "\t")
+			if cols[0] == "field" && len(cols) == 3 {
+				i := strings.LastIndex(cols[1], ".")
+				if baselineFields[cols[1][:i]] == nil {
+					baselineFields[cols[1][:i]] = map[string]string{}
+				}
+				baselineFields[cols[1][:i]][cols[1][i+1:]] = cols[2]
+				continue
+			}
 			Baseline[cols[0]] = true
 			if len(cols) == 4 {
 				baselineInfo[cols[0]] = baselineEntry{cols[1], cols[2], cols[3]}
